@@ -2,7 +2,7 @@ use smallvec::smallvec;
 use std::{borrow::Cow, time::Duration};
 
 use autosar_data_specification::{
-    AttributeName, AttributeSpec, AutosarVersion, ContentMode, ElementMultiplicity, ElementName, ElementType,
+    AttributeName, AttributeSpec, AutosarVersion, CharacterDataSpec, ContentMode, ElementMultiplicity, ElementName, ElementType,
 };
 use fxhash::FxHashMap;
 #[cfg(not(feature = "verif"))]
@@ -733,10 +733,25 @@ impl ElementRaw {
         })?;
         let mut name = orig_name.clone();
         let mut counter = 1;
+        // the generated name must remain a valid name: it may not be longer than the SHORT-NAME allows
+        let max_length = match self.content.first() {
+            Some(ElementContent::Element(short_name_elem)) => match short_name_elem.element_type().chardata_spec() {
+                Some(CharacterDataSpec::Pattern { max_length, .. }) | Some(CharacterDataSpec::String { max_length, .. }) => {
+                    max_length.unwrap_or(usize::MAX)
+                }
+                _ => usize::MAX,
+            },
+            _ => usize::MAX,
+        };
 
         let mut path = format!("{parent_path}/{orig_name}");
         while model.get_element_by_path(&path).is_some() {
-            name = format!("{orig_name}_{counter}");
+            let suffix = format!("_{counter}");
+            let mut keep = orig_name.len().min(max_length.saturating_sub(suffix.len()));
+            while !orig_name.is_char_boundary(keep) {
+                keep -= 1;
+            }
+            name = format!("{}{suffix}", &orig_name[..keep]);
             counter += 1;
             path = format!("{parent_path}/{name}");
         }
